@@ -152,4 +152,33 @@ def asset_term(a, spec, G='G'):
                         for s, e, c, p in zip(o['start'], o['end'], o['capa'], o['price'])])
         return '(build_orderbook %s %s %s %s %s)' % (C.s(a['name']), C.s(a['nodes'][0]), C.b(a.get('full_exec', False)),
                                                      rgrid_term(g, {'wacc': a.get('wacc', 0)}, G), orders)
+    if k == 'ScaledAsset':
+        base = asset_term(a['base'], spec, G)
+        srg = rgrid_term(g, {'start': a.get('start'), 'end': a.get('end'), 'wacc': 0}, G)
+        return '(build_scaled %s %s %s %s %s %s %s %s)' % (
+            C.s(a['name']), C.s(a['base']['nodes'][0]), C.q(float(a.get('min_scale', 0.0))), C.q(float(a.get('max_scale', 1.0))),
+            C.q(float(a.get('norm_scale', 1.0))), C.q(float(a.get('fix_costs', 0.0))), srg, base)
+    if k == 'StructuredAsset':
+        inner_nodes = []
+        for b in a['assets']:
+            for n in b['nodes']:
+                if n not in inner_nodes:
+                    inner_nodes.append(n)
+        return '(build_struct %s %s %s %s %s)' % (G, C.s(a['name']), C.lst([C.s(n) for n in inner_nodes]),
+                                                  C.lst([C.s(n) for n in a['nodes']]),
+                                                  C.lst([asset_term(b, spec, G) for b in a['assets']]))
     raise ValueError('asset kind %s not modelled' % k)
+
+
+def portfolio_nodes(spec):
+    out = []
+    for a in spec['assets']:
+        for n in a['nodes']:
+            if n not in out:
+                out.append(n)
+    return out
+
+
+def portfolio_term(spec, G='G'):
+    return '(build_portfolio %s %s %s)' % (G, C.lst([C.s(n) for n in portfolio_nodes(spec)]),
+                                           C.lst([asset_term(a, spec, G) for a in spec['assets']]))
